@@ -331,6 +331,87 @@ pub fn matrix<A: VArena>(ctx: &mut Ctx, arena: &A, b: &mut H<A>, rng: &mut Rng, 
             }
         }};
     }
+    // ---- varint puts at every fill level: in bounds or refused, nothing outside touched ---------
+    macro_rules! varint_fill_case {
+        ($ty:ident, $put:ident, $signed:expr) => {{
+            for &len in lens.iter() {
+                if len == 0 {
+                    continue;
+                }
+                let vals: [$ty; 4] = [1 as $ty, <$ty>::MAX, (<$ty>::MAX / 5), rng.next() as $ty];
+                for v in vals {
+                    ctx.out.inc("c14_cases");
+                    // reference encoding (LEB128 of the value, zig-zag for signed types)
+                    let mut u: u128 = if $signed { (((v as i128) << 1) ^ ((v as i128) >> 127)) as u128 } else { v as u128 };
+                    if !$signed {
+                        u &= (<$ty>::MAX as u128);
+                    } else {
+                        u &= ((<$ty>::MAX as u128) << 1) | 1;
+                    }
+                    let mut enc: Vec<u8> = vec![];
+                    loop {
+                        let b = (u & 0x7F) as u8;
+                        u >>= 7;
+                        if u == 0 {
+                            enc.push(b);
+                            break;
+                        }
+                        enc.push(b | 0x80);
+                    }
+                    let before = prep!(len);
+                    let r = b.$put(v);
+                    let mut exp = before[off..off + cap].to_vec();
+                    match r {
+                        Ok(n) => {
+                            if len + n > cap || b.len() != len + n {
+                                ctx.viol(stringify!($put), "accepted-overflow", format!("put at len {} of capacity {} returned Ok({}) and len {}", len, cap, n, b.len()), len);
+                                let p = arena.raw_mut_ptr();
+                                for i in 0..acap {
+                                    unsafe { *p.add(i) = before[i] };
+                                }
+                                continue;
+                            }
+                            if n != enc.len() {
+                                ctx.viol(stringify!($put), "wrong-length", format!("value {:?} encoded in {} bytes, reference needs {}", v, n, enc.len()), len);
+                                continue;
+                            }
+                            exp[len..len + n].copy_from_slice(&enc);
+                            check_mem!(stringify!($put), len, before, &exp);
+                            ctx.out.inc("c14_varint_fill_ok");
+                        }
+                        Err(_) => {
+                            if b.len() != len {
+                                ctx.viol(stringify!($put), "len-after-error", format!("len {} -> {} after refusal", len, b.len()), len);
+                                continue;
+                            }
+                            // bytes inside may be scratch; outside must be untouched
+                            let after = arena.memory().to_vec();
+                            let inside = after[off..off + cap].to_vec();
+                            if !check_mem!(stringify!($put), len, before, &inside) {
+                                let p = arena.raw_mut_ptr();
+                                for i in 0..acap {
+                                    unsafe { *p.add(i) = before[i] };
+                                }
+                                continue;
+                            }
+                            if len + enc.len() <= cap {
+                                ctx.viol(stringify!($put), "refused-though-fits", format!("{} bytes fit at len {} of capacity {} but the put was refused", enc.len(), len, cap), len);
+                            }
+                            ctx.out.inc("c14_refusals");
+                        }
+                    }
+                }
+            }
+        }};
+    }
+    varint_fill_case!(u16, put_u16_varint, false);
+    varint_fill_case!(u32, put_u32_varint, false);
+    varint_fill_case!(u64, put_u64_varint, false);
+    varint_fill_case!(u128, put_u128_varint, false);
+    varint_fill_case!(i16, put_i16_varint, true);
+    varint_fill_case!(i32, put_i32_varint, true);
+    varint_fill_case!(i64, put_i64_varint, true);
+    varint_fill_case!(i128, put_i128_varint, true);
     varint_case!(u16, put_u16_varint, get_u16_varint, write_u16_varint);
     varint_case!(u32, put_u32_varint, get_u32_varint, write_u32_varint);
     varint_case!(u64, put_u64_varint, get_u64_varint, write_u64_varint);
